@@ -58,9 +58,9 @@ def setup(ex, st, real_bank=None, energy=None):
     tlen = api.uf("tlen", I, I)
     # the banks' postconditions (C06 contract): start bins and lengths of the truncated responses
     i = z3.Int("fi")
-    st.assume(z3.ForAll([i], z3.Implies(z3.And(i >= 0, i < nf), z3.And(b0(i) >= 0, b0(i) < D, tlen(i) >= 1, tlen(i) <= D)),
+    st.assume(z3.ForAll([i], z3.Implies(z3.And(i >= 0, i < nf), z3.And(b0(i) >= 0, b0(i) < D, tlen(i) >= 0, tlen(i) <= D)),
                         patterns=[b0(i)]))
-    st.assume(z3.ForAll([i], z3.Implies(z3.And(i >= 0, i < nf), z3.And(b0(i) >= 0, b0(i) < D, tlen(i) >= 1, tlen(i) <= D)),
+    st.assume(z3.ForAll([i], z3.Implies(z3.And(i >= 0, i < nf), z3.And(b0(i) >= 0, b0(i) < D, tlen(i) >= 0, tlen(i) <= D)),
                         patterns=[tlen(i)]))
     st.fields[("self", "_filt_start_idxs")] = SeqVal(nf, lambda j: b0(Z(j)))
 
